@@ -23,7 +23,7 @@ ASSUMPTIONS = ["vmon/tt.py truth tables (self-checked)", "brute-force graph algo
                "beyond the cap (7-30 vertices) the formula is evaluated on constructed witnesses and their 1-3 flip perturbations against a direct predicate"]
 REQUIRED = ["exact_cases", "satisfiable_cases", "unsatisfiable_cases", "projected_cases", "opb_cases", "cnf_cases",
             "networkx_inputs", "refused_expected", "tseitin_count_formula_checked", "sampled_cases", "sampled_true_references",
-            "sampled_false_references"] + ["family_" + f for f in
+            "sampled_false_references", "graph_object_histories", "tseitin_degree_9_or_more"] + ["family_" + f for f in
             ("tseitin", "kcolor", "ec", "domset", "tiling", "iso", "auto", "subgraph", "kclique", "kcliquebin", "ramlb")]
 CASE_TIMEOUT = {"quick": 300, "thorough": 1800}
 
@@ -577,8 +577,11 @@ def workload(tier, seed):
                 for ch in chunks(gmasks, 8):
                     yield "subgraph", {"cls": cls, "N": N, "k": k, "gmasks": ch, "hmasks": hmasks, "as_nx": False}
         yield "subgraph", {"cls": cls, "N": 3, "k": 2, "gmasks": [0, 3, 7], "hmasks": [0, 1], "as_nx": True}
+        for d in (9, 10) if quick else (9, 10, 11, 12):
+            yield "tseitin_highdeg", {"cls": cls, "d": d}
         for i in range(2 if quick else 24):
             yield "large", {"cls": cls, "rseed": seed * 100 + i}
+            yield "history", {"cls": cls, "rseed": seed * 100 + i}
 
 
 # ------------------------------------------------------------------ beyond the cap: sampled assignments at realistic sizes
@@ -822,3 +825,60 @@ def case_large(ctx, cls, rseed):
             exp = {frozenset(t): e for t, e in pool}
             sampled_compare(ctx, "domset", desc, F, [set(t) for t in exp], lambda t, exp=exp: exp[frozenset(t)],
                             ("domset-large", n, d, alt, tuple(E), cls, rseed))
+
+
+def case_history(ctx, cls, rseed):
+    """Every simple-graph family on a Graph object that is edited between calls (caches keyed on the object)."""
+    K = S.formula_classes()[cls]
+    g = gens()
+    r = ctx.rng("c02hist", cls, rseed)
+    fams = [("tseitin", lambda G: g.TseitinFormula(G, formula_class=K)),
+            ("kcolor", lambda G: g.GraphColoringFormula(G, 3, formula_class=K)),
+            ("domset", lambda G: g.DominatingSet(G, 2, formula_class=K)),
+            ("tiling", lambda G: g.Tiling(G, formula_class=K)),
+            ("auto", lambda G: g.GraphAutomorphism(G, formula_class=K)),
+            ("iso", lambda G: g.GraphIsomorphism(G, G, formula_class=K)),
+            ("subgraph", lambda G: g.SubgraphFormula(G, S.simple_graph(3, 7)[0], formula_class=K)),
+            ("kclique", lambda G: g.CliqueFormula(G, 3, formula_class=K)),
+            ("kclique", lambda G: g.CliqueFormula(G, 3, symbreak=False, formula_class=K)),
+            ("kcliquebin", lambda G: g.BinaryCliqueFormula(G, 3, formula_class=K)),
+            ("ramlb", lambda G: g.RamseyWitnessFormula(G, 3, 2, formula_class=K))]
+    for fam, gen in fams:
+        for i in range(3):
+            S.graph_history_check(ctx, fam, "%s[%s]" % (fam, cls), gen, r, n=r.randint(4, 6))
+
+
+def case_tseitin_highdeg(ctx, cls, d):
+    """Stars and brooms with a vertex of degree d >= 9: exact model sets (|E| <= 13 variables)."""
+    tt.selfcheck()
+    g = gens()
+    r = ctx.rng("c02highdeg", cls, d)
+    shapes = []
+    n = d + 1
+    shapes.append((n, [(1, v) for v in range(2, n + 1)]))                                   # hub is vertex 1
+    shapes.append((n, sorted((min(v, n), max(v, n)) for v in range(1, n))))                 # hub is the last vertex
+    shapes.append((n + 2, [(1, v) for v in range(2, n + 1)] + [(n, n + 1), (n + 1, n + 2)]))  # broom
+    shapes.append((n, [(1, v) for v in range(2, n + 1)] + [(2, 3)]))                        # star plus one edge
+    for (nn, E) in shapes:
+        G = graph_obj(nn, E)
+        for _ in range(4):
+            charge = [r.random() < 0.5 for _ in range(nn)]
+            desc = "TseitinFormula(%s,charges=%r)[%s]" % (gdesc(nn, E), [int(c) for c in charge], cls)
+            F, at = setup(ctx, "tseitin", cls, desc, g.TseitinFormula, G, list(charge))
+            if F is None:
+                continue
+            fam_count(ctx, "tseitin", cls)
+            ctx.count("tseitin_degree_9_or_more")
+            ev = at.get("E_{#,#}", {})
+            if set(ev) != set(E):
+                ctx.violation("tseitin:atoms", "%s: variables do not name the edges" % desc)
+                continue
+            objs = []
+            for sub in edge_subsets(E):
+                deg = [0] * (nn + 1)
+                for u, v in sub:
+                    deg[u] += 1
+                    deg[v] += 1
+                if all(deg[v] % 2 == int(charge[v - 1]) for v in range(1, nn + 1)):
+                    objs.append([ev[e] for e in sub])
+            S.check_models(ctx, "tseitin", desc, F, objs, ("tseitin-highdeg", nn, tuple(E), tuple(charge), cls))
